@@ -167,7 +167,7 @@ fn classify(tool: &str, prop: &str, out: std::io::Result<std::process::Output>, 
             }
         }
     }
-    let ub = stderr.matches("Undefined Behavior").count() as u64;
+    let ub = stderr.matches("error: Undefined Behavior").count() as u64;
     let asan = stderr.matches("ERROR: AddressSanitizer").count() as u64;
     r.reports = ub + asan;
     if r.reports > 0 {
